@@ -222,7 +222,7 @@ fn stake_op(prop: &str) -> BoxedStrategy<Op> {
     let users = 4u8; // bonding users: a small pool keeps several changes per address and block common
     let bond = (0u8..users, funds).prop_map(|(by, funds)| Op::Bond { by, funds }).boxed();
     let unbond = (0u8..users, unbond_amt).prop_map(|(by, amt)| Op::Unbond { by, amt }).boxed();
-    let claim = (0u8..users).prop_map(|by| Op::Claim { by }).boxed();
+    let claim = prop_oneof![3 => 0u8..users, 2 => 100u8..124].prop_map(|by| Op::Claim { by }).boxed();
     let adm = (who(prop), admin_target()).prop_map(|(by, to)| Op::UpdateAdmin { by, to }).boxed();
     let addh = (who(prop), hook_ix()).prop_map(|(by, hook)| Op::AddHook { by, hook }).boxed();
     let remh = (who(prop), hook_sel()).prop_map(|(by, hook)| Op::RemoveHook { by, hook }).boxed();
@@ -319,6 +319,9 @@ enum X {
     Bond,
     /// cw20 path: the token contract calls Receive{sender: user, amount, msg: Bond}
     BondCw20 { user: String, amount: u128 },
+    /// somebody calls Receive directly, naming `claimed` as the cw20 sender, with a payload that is no Bond but
+    /// spells an admin call (kind 0: update_admin to the caller, 1: add_hook, 2: remove_hook)
+    ReceiveAs { claimed: String, kind: u8, arg: String },
     Unbond { tokens: u128 },
     Claim,
 }
@@ -482,7 +485,7 @@ impl World {
                 X::UpdateAdmin { admin } => E::UpdateAdmin { admin },
                 X::AddHook { addr } => E::AddHook { addr },
                 X::RemoveHook { addr } => E::RemoveHook { addr },
-                X::Bond | X::BondCw20 { .. } | X::Unbond { .. } | X::Claim => return Err("not a cw4-group call".into()),
+                X::Bond | X::BondCw20 { .. } | X::ReceiveAs { .. } | X::Unbond { .. } | X::Claim => return Err("not a cw4-group call".into()),
             };
             self.d.tx(|deps, env| cw4_group::contract::execute(deps, env, info, msg))
         } else {
@@ -497,6 +500,14 @@ impl World {
                     let msg = E::Receive(cw20::Cw20ReceiveMsg { sender: user, amount: Uint128::new(amount), msg: cosmwasm_std::to_json_binary(&cw4_stake::msg::ReceiveMsg::Bond {}).unwrap() });
                     let info = Direct::info(&token, &[]);
                     return self.d.tx(|deps, env| cw4_stake::contract::execute(deps, env, info, msg));
+                }
+                X::ReceiveAs { claimed, kind, arg } => {
+                    let payload = match kind % 3 {
+                        0 => serde_json::json!({"update_admin": {"admin": arg}}),
+                        1 => serde_json::json!({"add_hook": {"addr": arg}}),
+                        _ => serde_json::json!({"remove_hook": {"addr": arg}}),
+                    };
+                    E::Receive(cw20::Cw20ReceiveMsg { sender: claimed, amount: Uint128::new(1), msg: cosmwasm_std::Binary::from(serde_json::to_vec(&payload).unwrap()) })
                 }
                 X::Unbond { tokens } => E::Unbond { tokens: Uint128::new(tokens) },
                 X::Claim => E::Claim {},
@@ -973,7 +984,16 @@ pub fn run_case(prop: &str, case: &Case, ctx: &mut CaseCtx) -> Result<(), Violat
                         ctx.count("op_skipped_wrong_flavour");
                         continue;
                     }
-                    ("Claim", *by as usize % N_ADDR as usize, X::Claim)
+                    // (`by` from 100: not a Claim but a direct Receive that names the current admin as the cw20 sender
+                    // and carries an admin call as its payload - the caller speaks for nobody but itself)
+                    if *by >= 100 {
+                        let ix = (*by as usize - 100) % N_ADDR as usize;
+                        let claimed = pre.admin.clone().unwrap_or_else(|| w.addr_strs[0].clone());
+                        let arg = if *by % 3 == 0 { w.addr_strs[ix].clone() } else { w.hook_str((*by / 3) % N_HOOK) };
+                        ("ReceiveAs", ix, X::ReceiveAs { claimed, kind: *by % 3, arg })
+                    } else {
+                        ("Claim", *by as usize % N_ADDR as usize, X::Claim)
+                    }
                 }
             };
             let sender = w.addrs[sender_ix].clone();
@@ -986,6 +1006,7 @@ pub fn run_case(prop: &str, case: &Case, ctx: &mut CaseCtx) -> Result<(), Violat
                 X::BondCw20 { amount, .. } => format!("cw20 amount={amount}"),
                 X::Unbond { tokens } => format!("tokens={tokens}"),
                 X::Claim => String::new(),
+                X::ReceiveAs { claimed, kind, arg } => format!("claimed sender={claimed} kind={kind} arg={arg}"),
             };
             let hook_arg = match &x {
                 X::AddHook { addr } | X::RemoveHook { addr } => Some(addr.clone()),
@@ -1341,7 +1362,7 @@ fn d_stake_op(u: &mut arbitrary::Unstructured, prop: &str) -> Op {
             };
             Op::Unbond { by, amt }
         }
-        2 => Op::Claim { by: arb_below(u, users) as u8 },
+        2 => Op::Claim { by: if arb_bool(u, 2, 5) { 100 + arb_below(u, 24) as u8 } else { arb_below(u, users) as u8 } },
         3 => Op::UpdateAdmin { by: d_who(u, prop), to: d_opt_addr(u, 14) },
         4 => Op::AddHook { by: d_who(u, prop), hook: d_hook(u) },
         _ => Op::RemoveHook { by: d_who(u, prop), hook: d_hook_sel(u) },
